@@ -271,10 +271,27 @@ func encodeSet(c *Ctx) map[*ssa.Function]bool {
 			continue
 		}
 		for _, a := range cs.Common().Args {
+			var f *ssa.Function
 			if mc, ok := a.(*ssa.MakeClosure); ok {
-				roots = append(roots, mc.Fn.(*ssa.Function))
+				f = mc.Fn.(*ssa.Function)
+			} else if ff, ok := a.(*ssa.Function); ok {
+				f = ff
 			}
-			if f, ok := a.(*ssa.Function); ok {
+			// a method value (m.encode) is a closure of a synthetic wrapper: use the method itself
+			for i := 0; f != nil && f.Synthetic != "" && i < 3; i++ {
+				var target *ssa.Function
+				for _, b := range f.Blocks {
+					for _, ins := range b.Instrs {
+						if ci, ok := ins.(ssa.CallInstruction); ok {
+							if sc := ci.Common().StaticCallee(); sc != nil {
+								target = sc
+							}
+						}
+					}
+				}
+				f = target
+			}
+			if f != nil {
 				roots = append(roots, f)
 			}
 		}
